@@ -13,8 +13,8 @@
 (*   RoundTripStrict (negative control, not in the default config): the     *)
 (*               printer of query.go on every text - TLC finds `. . [ . ]`  *)
 (*               and `import "" as a ;`                                     *)
-(*   (the next two not for the alphabets of token PIECES, "strings" and     *)
-(*   "comments", whose point is what gluing the pieces gives)               *)
+(*   (the next two not for the alphabets of token PIECES - "strings",       *)
+(*   "comments", "lexemes" - whose point is what gluing the pieces gives)   *)
 (*   Separate    the blank-separated text lexes to exactly the tokens fed   *)
 (*               (blanks separate and have no other effect)                 *)
 (*   TokensOnly  two texts with the same token sequence get the same parse  *)
